@@ -35,16 +35,21 @@ def twin_case(case):
   diffs = []
   for k in ('pos', 'rot', 'vel', 'ang', 'qd'):
     x, y = np.array(a[k]), np.array(b[k])
-    if not (np.all(np.isfinite(x)) and np.all(np.isfinite(y))) or np.max(np.abs(x)) > 1e6:
+    bad_x = not np.all(np.isfinite(x)) or np.max(np.abs(x)) > 1e6
+    bad_y = not np.all(np.isfinite(y)) or np.max(np.abs(y)) > 1e6
+    if bad_x and bad_y:          # the motion itself blows up, with or without the inert feature: not comparable
       out['diverged'] = 1
       break
+    if bad_x or bad_y:           # only one twin blows up: the inert feature made the difference
+      diffs.append(float('inf'))
+      continue
     scale = 1 + max(np.max(np.abs(x)), np.max(np.abs(y)))
     diffs.append(float(np.max(np.abs(x - y))) / scale)
   out['diff'] = max(diffs) if diffs else 0.0
   rot = np.array(a['rot'])
-  out['quat_dev'] = float(np.max(np.abs(np.linalg.norm(rot, axis=-1) - 1))) if out['diverged'] == 0 else 0.0
+  out['quat_dev'] = float(np.nan_to_num(np.max(np.abs(np.linalg.norm(rot, axis=-1) - 1)), nan=1.0)) if out['diverged'] == 0 else 0.0
   rotb = np.array(b['rot'])
-  out['quat_dev_b'] = float(np.max(np.abs(np.linalg.norm(rotb, axis=-1) - 1))) if out['diverged'] == 0 else 0.0
+  out['quat_dev_b'] = float(np.nan_to_num(np.max(np.abs(np.linalg.norm(rotb, axis=-1) - 1)), nan=1.0)) if out['diverged'] == 0 else 0.0
   if case['what'] == 'separated':
     sys = mjcf.loads(case['xml_a'])
     dmin = []
